@@ -63,8 +63,8 @@ def r13_2(facts, res, roots):
     reach, _ = facts.reachable(roots)
     st = res.rule("R13-2", instances=0, functions=0, mutating_calls=0, may_mutate_functions=len(mm),
                   direct_mutators=len(direct), reasoned=0, fresh_receiver_skipped=0)
-    if len(direct) < 40:
-        raise BrokenCheck("R13-2: only %d direct mutators recognised (floor 40)" % len(direct))
+    if len(direct) < 24:
+        raise BrokenCheck("R13-2: only %d direct mutators recognised (floor 24)" % len(direct))
     dom_ctors = {f["path"] for f in facts.fns.values() if f["path"].startswith("xml_dom::<XmlDocument as DocumentMut>::create_")}
 
     def may_mutate(t):
@@ -121,8 +121,8 @@ def r13_2(facts, res, roots):
                             "%s calls %s (may change the document, line %s) and can afterwards leave with an error (%s, line %s): "
                             "a failing call is not atomic" % (f["path"], v["mut"], v["mut_line"], v["err"], v["err_line"]),
                             f["file"], v["err_line"], v))
-    if st["functions"] < 30:
-        raise BrokenCheck("R13-2: only %d functions analysed (floor 30)" % st["functions"])
+    if st["functions"] < 18:
+        raise BrokenCheck("R13-2: only %d functions analysed (floor 18)" % st["functions"])
 
 
 def exceptions_in(node):
@@ -166,8 +166,8 @@ def r13_3(facts, res):
                                                 "%s maps info error %s to %s, expected %s" % (path, variant, got, exc),
                                                 f["file"], arm.get("ln"), {}))
         # the foreign-document test comes first: WrongDocumentErr must be built before any call that may mutate
-    if st["instances"] < 35 or st["arms"] < 3:
-        raise BrokenCheck("R13-3: %d functions / %d arms (floor 35 / 3)" % (st["instances"], st["arms"]))
+    if st["instances"] < 21 or st["arms"] < 2:
+        raise BrokenCheck("R13-3: %d functions / %d arms (floor 21 / 2)" % (st["instances"], st["arms"]))
 
 
 def r13_3_wrong_doc_first(facts, res):
@@ -223,8 +223,8 @@ def r13_3c_everywhere(facts, res):
                 res.add(Finding("R13-3c", f["path"], "%s decides `wrong document` with %s, i.e. by comparing the *content* of the two owner "
                                 "documents: a node of another document with equal content passes the test"
                                 % (f["path"], facts.callee_name(t["callee"])), f["file"], t.get("ln"), {}))
-    if st_c["instances"] < 6:
-        raise BrokenCheck("R13-3c: %d owner-document tests (floor 6)" % st_c["instances"])
+    if st_c["instances"] < 3:
+        raise BrokenCheck("R13-3c: %d owner-document tests (floor 3)" % st_c["instances"])
 
 
 def owner_document_tests(facts, f):
@@ -318,8 +318,8 @@ def run(facts, tier):
     res.assumptions = ["unwind edges ignored; RefCell conflicts are claimed only where a live RefMut / Ref and the conflicting call are in one function (R13-8)",
                        "that a successful call performs exactly the DOM Level 1 change is not decided"]
     roots = entries.c13(facts)
-    if len(roots) < 45:
-        raise BrokenCheck("C13: %d entry points (floor 45)" % len(roots))
+    if len(roots) < 27:
+        raise BrokenCheck("C13: %d entry points (floor 27)" % len(roots))
     reach0, _ = facts.reachable(roots)
     reasons, verdicts = reasons_e1.resolve(facts, reach0)
     reach, parent = e1.panic_rule(facts, res, "R13-1", roots, reasons, {})
